@@ -152,6 +152,9 @@ def ratLexeme (q : Rat) : Option String :=
       else go f (scale * 10) (places + 1)
   go 12 10 1
 
+/-- the carrier of an enum declaration: the `Value` field's type of a struct-wrapped enum, else the type itself -/
+def enumCarrierOf (ty : GoTy) : GoTy := match ty with | .strct [fl] => fl.ty | c => c
+
 def jsonToIface (j : Json) : GoVal := match j with | .null => .nil | _ => .iface j
 
 /-- ASCII case folding as encoding/json's field matching does it -/
@@ -288,7 +291,7 @@ mutual
       match d.body with
       | .alias _ => .error (.noDecl d.name)
       | .enum vals wrapped intCoerce _ _ =>
-          let carrier : GoTy := match d.ty with | .strct [fl] => fl.ty | c => c
+          let carrier : GoTy := enumCarrierOf d.ty
           match decode w env f carrier j with
           | .error e => .error e
           | .ok v =>
